@@ -6,6 +6,7 @@ package zz_verif_sim
 
 import (
 	"fmt"
+	"strings"
 )
 
 // HandlerSpec describes one command handler the host registers.
@@ -39,6 +40,7 @@ type GenCfg struct {
 	NJVars                                                                                     int    // string variables that hold node titles
 	Probes                                                                                     bool   // pn/pb/ps/pn2 host functions in expressions
 	Visited                                                                                    bool   // visited()/visited_count() in expressions
+	BigRoundsPct                                                                               int    // share of hub worlds whose loop runs 126-300 rounds
 	Random                                                                                     bool   // dice/random/random_range (C09 only)
 	ExprDepth                                                                                  int
 	InlinePct                                                                                  int // chance of inline expressions in a line
@@ -59,15 +61,17 @@ type GenCfg struct {
 }
 
 type gen struct {
-	tp      *Tape
-	cfg     *GenCfg
-	titles  []string
-	lineSeq int
-	faults  int
-	total   int
-	outlier string // one size dimension blown up in this world ("" = none): thresholds must not hide behind small worlds
-	vars    [3][]string
-	jvars   []string
+	tp        *Tape
+	cfg       *GenCfg
+	titles    []string
+	lineSeq   int
+	faults    int
+	total     int
+	outlier   string // one size dimension blown up in this world ("" = none): thresholds must not hide behind small worlds
+	bigRounds bool   // the hub loop of this world runs 130-300 rounds (counters beyond 127 / 255)
+	suffix    string // appended to every variable name of this world: the process sees thousands of distinct names
+	vars      [3][]string
+	jvars     []string
 }
 
 var wordPool = []string{"hello", "the", "cat", "sat", "on", "a", "mat", "1", "x", "ok", "Zed", "don't", "wait", "what", "é", "日本", "über", "so", "if", "set", "and", "5.5", "a-b", "q?", "yes!", "(hm)", "50%", "a,b", "u_v", "$9"}
@@ -93,7 +97,10 @@ var titlePool = []string{"Start", "N1", "N2", "Shop", "End_1", "n", "Übung", "N
 // drawOutlier decides (in ~8 % of the worlds) which one size dimension goes far beyond its usual bound.
 func (g *gen) drawOutlier() {
 	if g.tp.Chance(8, "outlier") {
-		g.outlier = []string{"options", "elseifs", "tags", "inlines", "nodes", "words", "stmts", "rounds"}[g.tp.Int(0, 7, "outlierkind")]
+		g.outlier = []string{"options", "elseifs", "tags", "inlines", "nodes", "words", "stmts", "rounds", "longline"}[g.tp.Int(0, 8, "outlierkind")]
+	}
+	if g.tp.Chance(40, "varsuffix") {
+		g.suffix = fmt.Sprintf("_%d", g.tp.Int(0, 999999, "varsuffixn"))
 	}
 }
 
@@ -121,11 +128,11 @@ func (g *gen) program() *Program {
 	kinds := []string{"n", "b", "s"}
 	for k := 0; k < 3; k++ {
 		for i := 0; i < g.cfg.NVars[k]; i++ {
-			g.vars[k] = append(g.vars[k], fmt.Sprintf("%s%d", kinds[k], i))
+			g.vars[k] = append(g.vars[k], fmt.Sprintf("%s%d%s", kinds[k], i, g.suffix))
 		}
 	}
 	for i := 0; i < g.cfg.NJVars; i++ {
-		g.jvars = append(g.jvars, fmt.Sprintf("j%d", i))
+		g.jvars = append(g.jvars, fmt.Sprintf("j%d%s", i, g.suffix))
 	}
 	p := &Program{}
 	for i, t := range g.titles {
@@ -272,13 +279,13 @@ func (g *gen) stmt(depth int) *Stmt {
 func (g *gen) faultStmt() *Stmt {
 	switch g.tp.Int(0, 9, "faultstmt") {
 	case 0:
-		return &Stmt{K: sCommand, Cmd: "nocmd", Args: []CmdArg{{Word: "1"}}}
+		return &Stmt{K: sCommand, Cmd: longNames("nocmd")[g.tp.Pick([]int{5, 1, 1, 1}, "nocmdname")], Args: []CmdArg{{Word: "1"}}}
 	case 1:
 		return &Stmt{K: sJump, Target: "Nowhere"}
 	case 2:
 		return &Stmt{K: sJumpE, E: g.bin("+", numLit(1), numLit(1))}
 	case 3:
-		return &Stmt{K: sJumpE, E: &Expr{K: eStr, S: "no such node"}}
+		return &Stmt{K: sJumpE, E: &Expr{K: eStr, S: longNames("no such node")[g.tp.Pick([]int{5, 1, 1, 1}, "nonodename")]}}
 	case 4:
 		return &Stmt{K: sCall, E: &Expr{K: eCall, S: "nofunc"}}
 	case 5:
@@ -306,6 +313,16 @@ func (g *gen) faultStmt() *Stmt {
 		return &Stmt{K: sCall, E: &Expr{K: eCall, S: "pn", A: []*Expr{{K: eBool, B: true}}}}
 	}
 	return &Stmt{K: sIf, Clauses: []*Clause{{Cond: numLit(1), Body: []*Stmt{g.line()}}}}
+}
+
+// longNames: the usual short name and three that are long in bytes, in runes, or both - an error
+// message that shortens or pads a name has to cope with all of them.
+func longNames(short string) []string {
+	return []string{short,
+		short + "_" + strings.Repeat("x", 60),
+		"ノードはここにありませんよ本当に",      // 16 runes, 48 bytes
+		strings.Repeat("é", 45), // 45 runes, 90 bytes
+	}
 }
 
 func (g *gen) jumpTarget() string {
@@ -352,6 +369,22 @@ func (g *gen) lineS(isOption bool) *LineS {
 	text := id
 	for i := 0; i < nw; i++ {
 		text += " " + g.word()
+	}
+	if g.outlier == "longline" && g.tp.Chance(30, "longline") {
+		// one line of several KB, its byte length near a power of two or well beyond: buffers have sizes
+		target := []int{4096, 8192, 16384, 65536}[g.tp.Pick([]int{5, 2, 1, 1}, "longlinebase")] + g.tp.Int(-8, 8, "longlinedelta")
+		if g.tp.Chance(25, "longlinefree") {
+			target = g.tp.Int(3000, 20000, "longlinelen")
+		}
+		var sb strings.Builder
+		sb.WriteString(text)
+		for sb.Len() < target-6 {
+			sb.WriteString(" " + g.word())
+		}
+		for sb.Len() < target {
+			sb.WriteString("x")
+		}
+		text = sb.String()
 	}
 	l.Parts = append(l.Parts, Part{Text: text})
 	if g.cfg.CountLines {
@@ -408,10 +441,21 @@ func (g *gen) randLine() *Stmt {
 	switch g.tp.Int(0, 2, "randline") {
 	case 0:
 		n := []int{1, 2, 6, 20, 100, 1000000}[g.tp.Int(0, 5, "sides")]
+		if g.tp.Chance(20, "bigsides") {
+			// counts around and beyond 2^31 / 2^32 and up to 2^62: fixed-width arithmetic has edges there
+			n = []int{1<<31 - 1, 1 << 31, 1<<31 + 1, 3000000000, 1<<32 - 1, 1 << 32, 1<<32 + 1, 1 << 40, 1 << 52, 1 << 62, g.tp.Int(1<<31, 1<<33, "sidesfree")}[g.tp.Int(0, 10, "bigsideskind")]
+		}
 		l.Parts = []Part{{Text: fmt.Sprintf("RD %d ", n)}, {E: &Expr{K: eCall, S: "dice", A: []*Expr{numLit(float64(n))}}}}
 	case 1:
 		lo := g.tp.Int(-20, 20, "lo")
 		hi := lo + []int{0, 1, 2, 9, 1000}[g.tp.Int(0, 4, "span")]
+		if g.tp.Chance(20, "bigspan") {
+			hi = lo + []int{1<<31 - 2, 1<<31 - 1, 1 << 31, 3000000000, 1<<32 - 2, 1<<32 - 1, 1 << 32, 1 << 40, 1 << 52, g.tp.Int(1<<31, 1<<33, "spanfree")}[g.tp.Int(0, 9, "bigspankind")]
+			if g.tp.Chance(30, "biglo") {
+				lo -= 1 << 40
+				hi -= 1 << 40
+			}
+		}
 		l.Parts = []Part{{Text: fmt.Sprintf("RR %d %d ", lo, hi)}, {E: &Expr{K: eCall, S: "random_range", A: []*Expr{numLit(float64(lo)), numLit(float64(hi))}}}}
 	default:
 		l.Parts = []Part{{Text: "RF "}, {E: &Expr{K: eCall, S: "random"}}}
@@ -598,6 +642,10 @@ func (g *gen) atom(ty byte) *Expr {
 	}
 	switch ty {
 	case 'n':
+		if g.tp.Chance(2, "bignumlit") {
+			// beyond 2^32, 2^53 and 2^63: whatever is done through a machine integer has edges there
+			return &Expr{K: eNum, N: []float64{4294967296, 4294967297, 9007199254740992, 9223372036854775808, 18446744073709551616, 1e19, 1e30}[g.tp.Int(0, 6, "bignum")]}
+		}
 		return &Expr{K: eNum, N: numLits[g.tp.Int(0, len(numLits)-1, "numlit")]}
 	case 'b':
 		return &Expr{K: eBool, B: g.tp.Bool("boollit")}
@@ -907,14 +955,15 @@ func (g *gen) hubProgram() *Program {
 	kinds := []string{"n", "b", "s"}
 	for t := 0; t < 3; t++ {
 		for i := 0; i < g.cfg.NVars[t]; i++ {
-			g.vars[t] = append(g.vars[t], fmt.Sprintf("%s%d", kinds[t], i))
+			g.vars[t] = append(g.vars[t], fmt.Sprintf("%s%d%s", kinds[t], i, g.suffix))
 		}
 	}
 	if len(g.vars[0]) == 0 {
-		g.vars[0] = []string{"n0"}
+		g.vars[0] = []string{"n0" + g.suffix}
 	}
-	g.jvars = []string{"j0"}
-	cnt := "cnt"
+	j0 := "j0" + g.suffix
+	g.jvars = []string{j0}
+	cnt := "cnt" + g.suffix
 	p := &Program{}
 	start := &Node{Title: "Start"}
 	start.Body = append(start.Body, g.prelude()...)
@@ -927,6 +976,14 @@ func (g *gen) hubProgram() *Program {
 	rounds := g.tp.Int(2, 4, "rounds")
 	if g.outlier == "rounds" {
 		rounds = g.tp.Int(12, 40, "manyrounds") // a long run over few statements
+		if g.tp.Chance(40, "hugerounds") {
+			rounds = g.tp.Int(126, 300, "nhugerounds") // beyond what fits a small counter
+			g.bigRounds = true
+		}
+	}
+	if g.cfg.BigRoundsPct > 0 && g.tp.Chance(g.cfg.BigRoundsPct, "bigroundsworld") {
+		rounds = g.tp.Int(126, 300, "nhugerounds")
+		g.bigRounds = true
 	}
 	hub.Body = append(hub.Body, &Stmt{K: sSet, Var: cnt, Op: "+=", E: numLit(1)})
 	hub.Body = append(hub.Body, &Stmt{K: sIf, Clauses: []*Clause{{Cond: g.bin(">", &Expr{K: eVar, S: cnt}, numLit(float64(rounds))), Body: []*Stmt{g.line(), {K: sStop}}}}})
@@ -935,11 +992,11 @@ func (g *gen) hubProgram() *Program {
 	disp := &Stmt{K: sIf}
 	for i := 1; i < k; i++ {
 		disp.Clauses = append(disp.Clauses, &Clause{Cond: g.bin("==", g.bin("%", &Expr{K: eVar, S: cnt}, numLit(float64(k))), numLit(float64(i))),
-			Body: []*Stmt{{K: sSet, Var: "j0", Op: "=", E: &Expr{K: eStr, S: fmt.Sprintf("R%d", i)}}}})
+			Body: []*Stmt{{K: sSet, Var: j0, Op: "=", E: &Expr{K: eStr, S: fmt.Sprintf("R%d", i)}}}})
 	}
-	disp.Clauses = append(disp.Clauses, &Clause{Body: []*Stmt{{K: sSet, Var: "j0", Op: "=", E: &Expr{K: eStr, S: fmt.Sprintf("R%d", k)}}}})
+	disp.Clauses = append(disp.Clauses, &Clause{Body: []*Stmt{{K: sSet, Var: j0, Op: "=", E: &Expr{K: eStr, S: fmt.Sprintf("R%d", k)}}}})
 	hub.Body = append(hub.Body, disp)
-	v := &Expr{K: eVar, S: "j0"}
+	v := &Expr{K: eVar, S: j0}
 	var dest *Expr
 	switch g.tp.Int(0, 3, "hubjump") {
 	case 0:
